@@ -1111,17 +1111,19 @@ func blockLevelPageBreak(siblingBefore, siblingAfter Box) string {
 		box_ = box.Children[0]
 	}
 	choices := map[[2]pr.String]bool{
-		{"page", "auto"}:           true,
-		{"page", "avoid"}:          true,
-		{"page", "avoid-page"}:     true,
-		{"page", "avoid-column"}:   true,
-		{"column", "auto"}:         true,
-		{"column", "avoid"}:        true,
-		{"column", "avoid-page"}:   true,
-		{"column", "avoid-column"}: true,
-		{"avoid", "auto"}:          true,
-		{"avoid-page", "auto"}:     true,
-		{"avoid-column", "auto"}:   true,
+		{"page", "auto"}:               true,
+		{"page", "avoid"}:              true,
+		{"page", "avoid-page"}:         true,
+		{"page", "avoid-column"}:       true,
+		{"column", "auto"}:             true,
+		{"column", "avoid"}:            true,
+		{"column", "avoid-page"}:       true,
+		{"column", "avoid-column"}:     true,
+		{"avoid", "auto"}:              true,
+		{"avoid", "avoid-column"}:      true,
+		{"avoid-page", "auto"}:         true,
+		{"avoid-page", "avoid-column"}: true,
+		{"avoid-column", "auto"}:       true,
 	}
 	var result pr.String = "auto"
 	for _, value := range values {
